@@ -75,7 +75,8 @@ Section Accepted.
       parse_operation cfg uri_ok url_norm origin_ok time_ok bytes false = Some p /\
       p_type p = "update" /\ p_suffix p = ui_suffix i /\ p_reveal p = ui_reveal i /\
       p_delta p = Some d' /\ d_update_c d' = ui_update_c i /\ Forall2 jequiv (ui_patches i) (d_patches d') /\
-      p_time_args p = Some (0%Z, until_of cfg 0 0).
+      p_time_args p = Some (0%Z, until_of cfg 0 0) /\
+      parse_signed_update cfg (p_signed p) = Some {| su_key := Some (ui_key i); su_delta_hash := dh; su_from := 0; su_until := 0 |}.
   Proof.
     intros Hb Hcode Hsize Hrv Hreveal Hluc Hcuc Hldh Hdsize Halg Hcrv Hnonce Htime Hobj Hwf Hvalid.
     unfold build_update in Hb.
@@ -150,19 +151,26 @@ Section Accepted.
     (* 4. assemble *)
     set (p := {| p_type := "update"; p_suffix := ui_suffix i; p_origin := JNull; p_reveal := ui_reveal i; p_signed := sd; p_delta := Some d';
                  p_suffix_data := None; p_time_args := Some (0%Z, until_of cfg 0 0); p_origin_arg := None |}).
+    assert (Hsdr : signed_data_rule cfg sd j).
+    { unfold signed_data_rule. split; [apply compact_nonempty; intros ->; cbn in Hph; discriminate|]. split; [exact Hjws|].
+      exists (ui_alg i). cbn [j_headers j]. repeat split; auto.
+      intros k Ik. left. assert (Ik' : In k (keys [("alg", JStr (ui_alg i))])) by (eapply Permutation_in; [apply Permutation_sym; exact Pk|exact Ik]).
+      destruct Ik' as [<-|[]]. reflexivity. }
+    assert (Hskr : signing_key_rule cfg (Some (ui_key i))) by (exists (ui_key i); auto).
+    assert (Hhr : hash_rule cfg dh0) by (split; [exact Hldh|exists (ui_code i); auto]).
+    assert (Hsu : parse_signed_update cfg sd = Some {| su_key := Some (ui_key i); su_delta_hash := dh0; su_from := 0; su_until := 0 |}).
+    { apply parse_signed_update_iff. exists j, pm. cbn [su_key su_delta_hash su_from su_until].
+      split; [exact Hsdr|]. split; [exact Hpo|]. split; [exact Dk|]. split; [exact Ddh|]. split; [exact Df|]. split; [exact Du|].
+      split; [exact Hskr|exact Hhr]. }
     exists p, d'. split; [|cbn; repeat split; auto].
     apply accept_iff_rules. split; [exact Hsize|]. exists m'. split; [exact Hparse|].
     exists "update". split; [exact Ft|]. right. left. split; [reflexivity|].
     exists (ui_suffix i), (ui_reveal i), sd, (Some d'), j, pm, (Some (ui_key i)), dh0, 0%Z, 0%Z.
     split. { unfold common_rule. rewrite Ft, Fs, Fr, Fd. repeat split; auto; try discriminate; try apply Hrv. apply compact_nonempty. intros ->. cbn in Hph. discriminate. }
     split. { rewrite Exd. exact Dd. }
-    split. { unfold signed_data_rule. split; [apply compact_nonempty; intros ->; cbn in Hph; discriminate|]. split; [exact Hjws|].
-             exists (ui_alg i). cbn [j_headers j]. repeat split; auto.
-             intros k Ik. left. assert (Ik' : In k (keys [("alg", JStr (ui_alg i))])) by (eapply Permutation_in; [apply Permutation_sym; exact Pk|exact Ik]).
-             destruct Ik' as [<-|[]]. reflexivity. }
+    split; [exact Hsdr|].
     split; [exact Hpo|]. split; [exact Dk|]. split; [exact Ddh|]. split; [exact Df|]. split; [exact Du|].
-    split. { exists (ui_key i). auto. }
-    split. { split; [exact Hldh|]. exists (ui_code i). auto. }
+    split; [exact Hskr|]. split; [exact Hhr|].
     split; [exact Htime|].
     split.
     { exists d'. split; [reflexivity|]. split.
